@@ -13,22 +13,23 @@ RULE = ('identifier-tagged objects (value = ravelled position, tagged derivative
         'from every entry kind in every position; distinct = distinct request line; non-trivial = the index contains an '
         'array entry, a masked/out-of-range entry or the object has masked elements')
 MANIFEST = {
-    'text': 'Kernel-checked theorems (PMV/Props/C09.lean) about a code-shaped Lean model of polymath/extensions/indexer.py '
+    'text': 'Kernel-checked theorems (PMV/Props/C09.lean, 21) about a code-shaped Lean model of polymath/extensions/indexer.py '
             '(_prep_index statement by statement, _prep_scalar_index, __getitem__ with every mask-representation branch, '
             'relocation of array axes, derivative recursion, iteration) on top of a denotational model of NumPy basic + '
-            'advanced indexing: shapeless indexing is exact (complete refinement); per index entry, masked / out-of-range '
-            'integers and array elements are replaced by an in-range index and flagged exactly when masked or out of range '
-            '(all mask representations); the post-mask merge yields masked iff source masked or entry flagged in every '
-            'branch; moveaxis turns NumPy\'s front placement into placement at the first array index; derivatives use the '
-            'same selection; iteration/ndenumerate/len visit q[0], q[1], ...; invalid entries give IndexError. The model is '
-            'tied to /repo on every run: the same index tuples go to the real code and to the compiled model (outputs '
-            'diffed), the NumPy model is compared with real NumPy (kernel suite), and an independent loop-based per-element '
-            'reference judges the real code directly.',
+            'advanced indexing, relative to a per-element specification sel. End-to-end refinements getitem = sel: shapeless '
+            'objects (complete); tuples of None/Ellipsis/slices/integers/single booleans of any length on any rank '
+            '(getitem_basic, complete incl. error agreement); one array entry with masked and out-of-range elements in any '
+            'position after None/Ellipsis/slices/booleans (getitem_one_array_partial: the class of the axis-misplacement defect). '
+            'Stage theorems: per-entry replacement/flags, mask merge in all 3x3 representation branches (mask_iff), relocation, '
+            'derivatives, iteration, invalid entries. The model is tied to /repo on every run: the same index tuples go to the '
+            'real code and to the compiled model (outputs diffed), the NumPy model is compared with real NumPy (kernel suite), '
+            'the Lean specification with an independent Python reference (spec suite), and that reference judges the real '
+            'code directly.',
     'design': 'DESIGN.md §3 C09, DESIGN.d/C09.md',
-    'technique': 'Lean 4 proof (induction over index lists / case analysis over representations) + model/code correspondence + NumPy kernel suite',
-    'note': 'The end-to-end refinement getitem = sel for arbitrary entry lists is NOT proved (stage theorems + T1 only); see '
-            'DESIGN.d/C09.md. Open finding KF-C09-1 (integer index on a zero-length axis raises IndexError). Six defects of '
-            'the pinned tree repaired on branch wt-C09.',
+    'technique': 'Lean 4 proof (induction over index lists linking absolute axis bookkeeping to progressive consumption; case analysis over representations) + model/code correspondence + NumPy kernel suite + spec suite',
+    'note': 'NOT proved end to end: several array entries (getitem_arrays), Pair/Vector index objects, integers ahead of a single '
+            'array entry, shapes with empty axes in the one-array theorem (T1 + oracle only); see DESIGN.d/C09.md. Open finding '
+            'KF-C09-1 (integer index on a zero-length axis raises IndexError). Five indexing defects of the pinned tree repaired.',
 }
 ASSUMPTIONS = ['slices are abstracted as the list of source coordinates they select (polymath passes them to NumPy untouched)',
                'NumPy semantics = PMV/Model/NpIndex.lean, validated by the kernel suite of this run (not proved)',
